@@ -98,12 +98,15 @@ class Verdict:
               "violations": len(self.violations)}
         with open(os.path.join(EVID, self.prop + ".json"), "w") as f:
             json.dump(ev, f, indent=1, default=repr)
+        # a clause that fails on the real code, with its replay file, stands even if the machinery ALSO stumbled somewhere
+        # in the same run (typically over the same misbehaviour: e.g. an execution handled by two instances breaks both
+        # the affinity clause and the recorder's one-history-per-execution bookkeeping)
+        if self.violations:
+            print("RESULT property=%s VIOLATED%s wall=%ss" % (self.prop, " (and %d machinery failures)" % len(self.machinery) if self.machinery else "", wall))
+            return 1
         if self.machinery:
             print("RESULT property=%s machinery failure (exit 2) wall=%ss" % (self.prop, wall))
             return 2
-        if self.violations:
-            print("RESULT property=%s VIOLATED wall=%ss" % (self.prop, wall))
-            return 1
         print("RESULT property=%s holds on everything explored (known findings: %s) wall=%ss" % (
             self.prop, ",".join(sorted(self.known)) or "none", wall))
         return 0
